@@ -15,11 +15,23 @@ use core::ops::{Bound, RangeBounds};
 
 pub const CAP: usize = 4;
 
-pub struct BTreeMap<K, V> {
+/// Storage.  `scratch_*`: the entry most recently handed out by `get_mut`/`entry` is *moved* into
+/// the scratch slot (a concrete address) and moved back (`sync`) at the start of the next
+/// operation, so a `&mut V` never is a pointer with a symbolic offset into the arrays (a write
+/// through such a pointer is a byte-level update of the whole map object: measured 13x blow-up).
+struct Inner<K, V> {
     keys: [Option<K>; CAP],
     vals: [Option<V>; CAP],
     len: usize,
+    scratch_v: Option<V>,
+    scratch_pos: usize,
 }
+
+pub struct BTreeMap<K, V> {
+    i: core::cell::UnsafeCell<Inner<K, V>>,
+}
+unsafe impl<K: Send, V: Send> Send for BTreeMap<K, V> {}
+unsafe impl<K: Sync, V: Sync> Sync for BTreeMap<K, V> {}
 
 pub type HashMap<K, V> = BTreeMap<K, V>;
 pub type HashSet<K> = BTreeSet<K>;
@@ -36,31 +48,65 @@ impl<K: fmt::Debug, V: fmt::Debug> fmt::Debug for BTreeMap<K, V> {
     }
 }
 
+#[inline(always)]
+unsafe fn mv<T>(dst: &mut Option<T>, src: &mut Option<T>) {
+    // typed move without drop glue: dst is None by invariant
+    let x = core::mem::replace(src, None);
+    core::mem::forget(core::mem::replace(dst, x));
+}
+
 impl<K, V> BTreeMap<K, V> {
     pub const fn new() -> Self {
-        Self { keys: [const { None }; CAP], vals: [const { None }; CAP], len: 0 }
+        Self {
+            i: core::cell::UnsafeCell::new(Inner {
+                keys: [const { None }; CAP],
+                vals: [const { None }; CAP],
+                len: 0,
+                scratch_v: None,
+                scratch_pos: CAP,
+            }),
+        }
+    }
+    /// synced view
+    #[allow(clippy::mut_from_ref)]
+    #[inline]
+    fn me(&self) -> &mut Inner<K, V> {
+        let m = unsafe { &mut *self.i.get() };
+        if m.scratch_pos < CAP {
+            let mut i = 0;
+            while i < CAP {
+                if i == m.scratch_pos {
+                    unsafe { mv(&mut m.vals[i], &mut m.scratch_v) };
+                }
+                i += 1;
+            }
+            m.scratch_pos = CAP;
+        }
+        m
     }
     #[inline]
     pub fn len(&self) -> usize {
-        self.len
+        self.me().len
     }
     #[inline]
     pub fn is_empty(&self) -> bool {
-        self.len == 0
+        self.me().len == 0
     }
     pub fn clear(&mut self) {
+        let m = self.me();
         let mut j = 0;
         while j < CAP {
-            self.keys[j] = None;
-            self.vals[j] = None;
+            m.keys[j] = None;
+            m.vals[j] = None;
             j += 1;
         }
-        self.len = 0;
+        m.len = 0;
     }
-    /// Model-only: entry at sorted position `j` (concrete or symbolic), for harness observers.
+    /// Model-only: entry at sorted position `j`, for harness observers.
     pub fn verif_at(&self, j: usize) -> Option<(&K, &V)> {
-        if j < self.len {
-            match (&self.keys[j], &self.vals[j]) {
+        let m = self.me();
+        if j < m.len {
+            match (&m.keys[j], &m.vals[j]) {
                 (Some(k), Some(v)) => Some((k, v)),
                 _ => None,
             }
@@ -68,8 +114,29 @@ impl<K, V> BTreeMap<K, V> {
             None
         }
     }
+    /// Model-only: append an entry whose key is larger than every key present (state builders).
+    pub fn verif_push_back(&mut self, k: K, v: V) {
+        let m = self.me();
+        assert!(m.len < CAP, "VERIF: bound exceeded: model map capacity");
+        let mut k = Some(k);
+        let mut v = Some(v);
+        let mut i = 0;
+        while i < CAP {
+            if i == m.len {
+                unsafe {
+                    mv(&mut m.keys[i], &mut k);
+                    mv(&mut m.vals[i], &mut v);
+                }
+            }
+            i += 1;
+        }
+        core::mem::forget(k);
+        core::mem::forget(v);
+        m.len += 1;
+    }
     pub fn iter(&self) -> Iter<'_, K, V> {
-        Iter { m: self, lo: 0, hi: self.len }
+        let m = self.me();
+        Iter { m, lo: 0, hi: m.len }
     }
     pub fn keys(&self) -> Keys<'_, K, V> {
         Keys(self.iter())
@@ -81,19 +148,22 @@ impl<K, V> BTreeMap<K, V> {
         self.verif_at(0)
     }
     pub fn last_key_value(&self) -> Option<(&K, &V)> {
-        // concrete scan so that the returned references are a choice among concrete slots
+        let m = self.me();
         let mut j = CAP;
         while j > 0 {
             j -= 1;
-            if j + 1 == self.len {
-                return self.verif_at(j);
+            if j + 1 == m.len {
+                return match (&m.keys[j], &m.vals[j]) {
+                    (Some(k), Some(v)) => Some((k, v)),
+                    _ => None,
+                };
             }
         }
         None
     }
 }
 
-impl<K: Ord, V> BTreeMap<K, V> {
+impl<K, V> Inner<K, V> {
     /// sorted position of the first key >= k (in 0..=len), by concrete scan
     fn lower_bound<Q: ?Sized + Ord>(&self, k: &Q) -> usize
     where
@@ -132,40 +202,79 @@ impl<K: Ord, V> BTreeMap<K, V> {
         }
         pos
     }
-    fn find<Q: ?Sized + Ord>(&self, k: &Q) -> Option<usize>
+    /// position of key k, or CAP
+    fn find<Q: ?Sized + Ord>(&self, k: &Q) -> usize
     where
         K: Borrow<Q>,
     {
+        let mut pos = CAP;
         let mut j = 0;
         while j < CAP {
             if j < self.len {
                 if let Some(kj) = &self.keys[j] {
                     if kj.borrow() == k {
-                        return Some(j);
+                        pos = j;
                     }
                 }
             }
             j += 1;
         }
-        None
+        pos
     }
+    fn remove_at(&mut self, pos: usize) -> Option<(K, V)> {
+        let mut outk: Option<K> = None;
+        let mut outv: Option<V> = None;
+        let mut i = 0;
+        while i < CAP {
+            if i == pos {
+                unsafe {
+                    mv(&mut outk, &mut self.keys[i]);
+                    mv(&mut outv, &mut self.vals[i]);
+                }
+            }
+            i += 1;
+        }
+        // shift left
+        let mut j = 0;
+        while j + 1 < CAP {
+            if j >= pos && j + 1 < self.len {
+                let (a, b) = self.keys.split_at_mut(j + 1);
+                unsafe { mv(&mut a[j], &mut b[0]) };
+                let (a, b) = self.vals.split_at_mut(j + 1);
+                unsafe { mv(&mut a[j], &mut b[0]) };
+            }
+            j += 1;
+        }
+        self.len -= 1;
+        match (outk, outv) {
+            (Some(k), Some(v)) => Some((k, v)),
+            (k, v) => {
+                core::mem::forget(k);
+                core::mem::forget(v);
+                None
+            }
+        }
+    }
+}
 
+impl<K: Ord, V> BTreeMap<K, V> {
     pub fn contains_key<Q: ?Sized + Ord>(&self, k: &Q) -> bool
     where
         K: Borrow<Q>,
     {
-        self.find(k).is_some()
+        self.me().find(k) < CAP
     }
     pub fn get<Q: ?Sized + Ord>(&self, k: &Q) -> Option<&V>
     where
         K: Borrow<Q>,
     {
+        let m = self.me();
         let mut j = 0;
         while j < CAP {
-            if j < self.len {
-                if let Some(kj) = &self.keys[j] {
+            if j < m.len {
+                if let Some(kj) = &m.keys[j] {
                     if kj.borrow() == k {
-                        return self.vals[j].as_ref();
+                        return m.vals[j].as_ref();
                     }
                 }
             }
@@ -177,44 +286,50 @@ impl<K: Ord, V> BTreeMap<K, V> {
     where
         K: Borrow<Q>,
     {
+        let m = self.me();
+        let pos = m.find(k);
+        if pos >= CAP {
+            return None;
+        }
+        // move the value into the scratch slot (concrete address)
         let mut j = 0;
         while j < CAP {
-            if j < self.len {
-                let hit = match &self.keys[j] {
-                    Some(kj) => kj.borrow() == k,
-                    None => false,
-                };
-                if hit {
-                    return self.vals[j].as_mut();
-                }
+            if j == pos {
+                unsafe { mv(&mut m.scratch_v, &mut m.vals[j]) };
             }
             j += 1;
         }
-        None
+        m.scratch_pos = pos;
+        m.scratch_v.as_mut()
     }
 
     pub fn insert(&mut self, k: K, v: V) -> Option<V> {
-        if let Some(j) = self.find(&k) {
-            // replace (concrete scan again to keep indices concrete)
+        let m = self.me();
+        let j = m.find(&k);
+        if j < CAP {
             let mut i = 0;
             let mut v = Some(v);
             let mut old = None;
             while i < CAP {
                 if i == j {
-                    old = core::mem::replace(&mut self.vals[i], v.take());
+                    core::mem::swap(&mut m.vals[i], &mut v);
+                    unsafe { mv(&mut old, &mut v) };
                 }
                 i += 1;
             }
+            core::mem::forget(v);
             return old;
         }
-        assert!(self.len < CAP, "VERIF: bound exceeded: model map capacity");
-        let pos = self.lower_bound(&k);
-        // shift right
+        assert!(m.len < CAP, "VERIF: bound exceeded: model map capacity");
+        let pos = m.lower_bound(&k);
+        // shift right (typed moves, no drop glue: slots >= len are None by invariant)
         let mut j = CAP - 1;
         while j > 0 {
-            if j > pos && j <= self.len {
-                self.keys[j] = self.keys[j - 1].take();
-                self.vals[j] = self.vals[j - 1].take();
+            if j > pos && j <= m.len {
+                let (a, b) = m.keys.split_at_mut(j);
+                unsafe { mv(&mut b[0], &mut a[j - 1]) };
+                let (a, b) = m.vals.split_at_mut(j);
+                unsafe { mv(&mut b[0], &mut a[j - 1]) };
             }
             j -= 1;
         }
@@ -223,52 +338,37 @@ impl<K: Ord, V> BTreeMap<K, V> {
         let mut i = 0;
         while i < CAP {
             if i == pos {
-                self.keys[i] = k.take();
-                self.vals[i] = v.take();
+                unsafe {
+                    mv(&mut m.keys[i], &mut k);
+                    mv(&mut m.vals[i], &mut v);
+                }
             }
             i += 1;
         }
-        self.len += 1;
+        core::mem::forget(k);
+        core::mem::forget(v);
+        m.len += 1;
         None
-    }
-
-    fn remove_at(&mut self, pos: usize) -> Option<(K, V)> {
-        let mut out = None;
-        let mut i = 0;
-        while i < CAP {
-            if i == pos {
-                out = match (self.keys[i].take(), self.vals[i].take()) {
-                    (Some(k), Some(v)) => Some((k, v)),
-                    _ => None,
-                };
-            }
-            i += 1;
-        }
-        // shift left
-        let mut j = 0;
-        while j + 1 < CAP {
-            if j >= pos && j + 1 < self.len {
-                self.keys[j] = self.keys[j + 1].take();
-                self.vals[j] = self.vals[j + 1].take();
-            }
-            j += 1;
-        }
-        self.len -= 1;
-        out
     }
 
     pub fn remove<Q: ?Sized + Ord>(&mut self, k: &Q) -> Option<V>
     where
         K: Borrow<Q>,
     {
-        let pos = self.find(k)?;
-        self.remove_at(pos).map(|(_, v)| v)
+        let m = self.me();
+        let pos = m.find(k);
+        if pos >= CAP {
+            return None;
+        }
+        m.remove_at(pos).map(|(_, v)| v)
     }
     pub fn pop_first(&mut self) -> Option<(K, V)> {
-        if self.len == 0 { None } else { self.remove_at(0) }
+        let m = self.me();
+        if m.len == 0 { None } else { m.remove_at(0) }
     }
     pub fn pop_last(&mut self) -> Option<(K, V)> {
-        if self.len == 0 { None } else { self.remove_at(self.len - 1) }
+        let m = self.me();
+        if m.len == 0 { None } else { m.remove_at(m.len - 1) }
     }
 
     pub fn entry(&mut self, k: K) -> Entry<'_, K, V> {
@@ -279,30 +379,32 @@ impl<K: Ord, V> BTreeMap<K, V> {
     where
         K: Borrow<Q>,
     {
+        let m = self.me();
         let lo = match r.start_bound() {
             Bound::Unbounded => 0,
-            Bound::Included(k) => self.lower_bound(k),
-            Bound::Excluded(k) => self.upper_bound(k),
+            Bound::Included(k) => m.lower_bound(k),
+            Bound::Excluded(k) => m.upper_bound(k),
         };
         let hi = match r.end_bound() {
-            Bound::Unbounded => self.len,
-            Bound::Included(k) => self.upper_bound(k),
-            Bound::Excluded(k) => self.lower_bound(k),
+            Bound::Unbounded => m.len,
+            Bound::Included(k) => m.upper_bound(k),
+            Bound::Excluded(k) => m.lower_bound(k),
         };
-        Iter { m: self, lo, hi: if hi < lo { lo } else { hi } }
+        Iter { m, lo, hi: if hi < lo { lo } else { hi } }
     }
 
     pub fn retain<F: FnMut(&K, &mut V) -> bool>(&mut self, mut f: F) {
+        let m = self.me();
         let mut j = CAP;
         while j > 0 {
             j -= 1;
-            if j < self.len {
-                let keep = match (&self.keys[j], &mut self.vals[j]) {
+            if j < m.len {
+                let keep = match (&m.keys[j], &mut m.vals[j]) {
                     (Some(k), Some(v)) => f(k, v),
                     _ => true,
                 };
                 if !keep {
-                    self.remove_at(j);
+                    m.remove_at(j);
                 }
             }
         }
@@ -316,18 +418,28 @@ impl<K: Ord, V> BTreeMap<K, V> {
 
 impl<K: Clone, V: Clone> Clone for BTreeMap<K, V> {
     fn clone(&self) -> Self {
-        Self { keys: self.keys.clone(), vals: self.vals.clone(), len: self.len }
+        let m = self.me();
+        Self {
+            i: core::cell::UnsafeCell::new(Inner {
+                keys: m.keys.clone(),
+                vals: m.vals.clone(),
+                len: m.len,
+                scratch_v: None,
+                scratch_pos: CAP,
+            }),
+        }
     }
 }
 impl<K: PartialEq, V: PartialEq> PartialEq for BTreeMap<K, V> {
     fn eq(&self, o: &Self) -> bool {
-        if self.len != o.len {
+        let (a, b) = (self.me(), o.me());
+        if a.len != b.len {
             return false;
         }
         let mut j = 0;
         let mut eq = true;
         while j < CAP {
-            if j < self.len && (self.keys[j] != o.keys[j] || self.vals[j] != o.vals[j]) {
+            if j < a.len && (a.keys[j] != b.keys[j] || a.vals[j] != b.vals[j]) {
                 eq = false;
             }
             j += 1;
@@ -360,7 +472,7 @@ impl<'a, K: Ord + Clone, V> Entry<'a, K, V> {
 }
 
 pub struct Iter<'a, K, V> {
-    m: &'a BTreeMap<K, V>,
+    m: &'a Inner<K, V>,
     lo: usize,
     hi: usize,
 }
@@ -460,13 +572,14 @@ pub struct IntoIter<K, V> {
 impl<K, V> Iterator for IntoIter<K, V> {
     type Item = (K, V);
     fn next(&mut self) -> Option<(K, V)> {
-        if self.lo < self.m.len {
+        let m = self.m.me();
+        if self.lo < m.len {
             let j = self.lo;
             self.lo += 1;
             let mut i = 0;
             while i < CAP {
                 if i == j {
-                    return match (self.m.keys[i].take(), self.m.vals[i].take()) {
+                    return match (m.keys[i].take(), m.vals[i].take()) {
                         (Some(k), Some(v)) => Some((k, v)),
                         _ => None,
                     };
